@@ -54,6 +54,7 @@ COMPONENTS = {
 PROBES = {"same_size_edit": 1, "racy_same_granule_edit": 1,
           "status_reported_change": 1, "roundtrip_checked": 1,
           "kind_replacement": 1, "untracked_dir_collapsed": 1,
+          "untracked_dir_with_empty_subdirs": 1,
           "directory_became_file": 1, "type_change_same_bytes": 1,
           "reset_hard": 1, "add_all": 1, "reset_mixed": 1,
           "staged_new_became_directory": 1,
@@ -120,7 +121,7 @@ def gen_plan(seed, tier):
              "unstage", "rm_cached", "commit", "switch", "switch", "touch",
              "rewrite_same", "dir_to_file", "to_link_same", "to_file_same",
              "reset_hard", "reset_hard", "add_all", "reset_mixed",
-             "dir_to_link", "new_staged_dir_reset"]),
+             "dir_to_link", "new_staged_dir_reset", "untracked_mixed_dir"]),
             "i": rng.randrange(100), "c": rng.randrange(10**6)})
     mode = rng.choice(["normal", "normal", "skewed", "racy", "racy"])
     gran = rng.choice([1, 1000, 4 * 10**6, 10**9, 2 * 10**9])
@@ -530,6 +531,19 @@ def run_plan(plan):
                         continue
                     write_file(p, content(ed["c"]) or b"u")
                     m.wd[p] = ("file", content(ed["c"]) or b"u", False)
+                elif op == "untracked_mixed_dir":
+                    # an untracked directory holding empty sub-directories
+                    # next to one that has a file (whichever is listed first)
+                    d = b"ud%d" % (ed["i"] % 3)
+                    p = d + [b"/m/f", b"/f", b"/z/y/f"][ed["c"] % 3]
+                    if any(q == d or q.startswith(d + b"/") for q in
+                           list(m.wd) + list(m.index)):
+                        continue
+                    for e in (b"/a", b"/n/o", b"/zz"):
+                        R.makedirs(fspath(d + e), exist_ok=True)
+                    write_file(p, content(ed["c"]) or b"u")
+                    m.wd[p] = ("file", content(ed["c"]) or b"u", False)
+                    stats["probe:untracked_dir_with_empty_subdirs"] = 1
                 elif op in ("to_link", "to_file", "to_dir"):
                     p = pick(present)
                     if op == "to_dir":
